@@ -275,7 +275,8 @@ func nonRepeating(symbols []pr.NamedString, firstValue, value int) (string, bool
 
 // Implement the algorithm for `type: symbolic`.
 func symbolic(symbols []pr.NamedString, value int) (string, bool) {
-	if len(symbols) == 0 {
+	// the symbolic system is defined over strictly positive values only
+	if len(symbols) == 0 || value < 1 {
 		return "", false
 	}
 	L := len(symbols)
